@@ -528,6 +528,19 @@ impl Inner {
                         );
                         return Err(Error::library_reset(id, Reason::STREAM_CLOSED));
                     }
+                } else if frame.pseudo().method.is_none()
+                    && self.actions.may_have_forgotten_stream(peer, id)
+                {
+                    // Server: a header block without a request line on an
+                    // identifier the peer has already used is a trailer
+                    // section. It may have been sent before our RST_STREAM
+                    // arrived (a refused stream is not remembered at all), so
+                    // it is no reason to end the connection.
+                    tracing::debug!(
+                        "recv_headers; trailers for old stream={:?}, sending STREAM_CLOSED",
+                        id,
+                    );
+                    return Err(Error::library_reset(id, Reason::STREAM_CLOSED));
                 }
 
                 match self
